@@ -32,7 +32,7 @@ class Unsupported(Exception):
 
 
 RESERVED = {"default", "from", "at", "end", "fun", "let", "have", "show", "then", "else", "if", "by", "match", "with",
-            "def", "open", "instance", "structure", "where", "do", "in", "for", "return", "mut", "local", "prefix"}
+            "def", "open", "calc", "instance", "structure", "where", "do", "in", "for", "return", "mut", "local", "prefix"}
 
 
 def lname(n: str) -> str:
@@ -442,7 +442,7 @@ class Fn:
             return
         if (isinstance(c.func, ast.Attribute) and c.func.attr == "update_from_calculator" and isinstance(c.func.value, ast.Name)
                 and self.tof(c.func.value.id) == "N" and len(c.args) == 1 and u(c.args[0]) == "calc" and not c.keywords):
-            self.emit(ind, f"self := Prim.defnFromCalc self {lname(c.func.value.id)} calc")
+            self.emit(ind, f"self := Prim.defnFromCalc self {lname(c.func.value.id)} {lname('calc')}")
             return
         if (isinstance(c.func, ast.Attribute) and c.func.attr == "update" and isinstance(c.func.value, ast.Name)
                 and self.tof(c.func.value.id) == "N" and not c.args and not c.keywords):
@@ -665,7 +665,7 @@ def translate(src_root: Path):
         problems.append("ParameterController.update_from_calculator(self, calc) not found")
     else:
         section("ParameterController.update_from_calculator (`calc` is the value the calculator holds for each definition)",
-                "def update_from_calculator (g : Graph V) (self : St V) (calc : Nat → V) : Except String (St V) := do",
+                "def update_from_calculator (g : Graph V) (self : St V) (calc_ : Nat → V) : Except String (St V) := do",
                 Fn("update_from_calculator", ["calc"], {"calc": "CALC"}, {"changed": "LN"}, ctl=True, result="self"),
                 _strip_doc(f.body))
     f = _find(st, "ParameterController", "updates_postponed")
